@@ -96,6 +96,33 @@ pub fn packet_id_exhaustion_cases(s: &mut Session, rng: &mut Rng) {
             s.oracle_fail(&format!("udp-ids:{}:no-end", cipher), "the session did not end at the end of the packet-id space");
         }
         s.mark_nontrivial();
+        // a busy sender that gets a few replies: the ids of what it sends go on strictly increasing whatever ids the replies carry
+        s.begin_case(&format!("udp-ids-with-replies:{}", cipher));
+        let (uc, us) = (s.fresh("uc"), s.fresh("us"));
+        s.run(&format!("ssu.client {} cipher={} password={}", uc, cipher, cfg.client_password));
+        s.run(&format!("ssu.server {} cipher={} password={} users=-", us, cipher, cfg.server_password));
+        let mut last: Option<u64> = None;
+        let mut csid = 0u64;
+        for i in 0..14 {
+            let w = timed(s, &format!("ssu.cenc {} addr={} payload={}", uc, random_addr(rng), hex(&rng.bytes(5))));
+            let r = timed(s, &format!("ssu.sdec {} {}", us, w));
+            let pid: u64 = field(&r, "pid").and_then(|x| x.parse().ok()).unwrap_or(0);
+            csid = field(&r, "csid").and_then(|x| x.parse().ok()).unwrap_or(csid);
+            if let Some(l) = last {
+                if pid <= l {
+                    s.oracle_fail(&format!("udp-ids:{}:not-increasing", cipher), &format!("datagram {} of a session went out with packet id {} after {}", i, pid, l));
+                    break;
+                }
+            }
+            last = Some(pid);
+            if i % 3 == 2 {
+                // a reply whose own (server side) packet id is small / equal / far ahead
+                let spid = [1u64, pid, 2, 1 << 33][(i / 3) % 4];
+                let w = timed(s, &format!("ssu.senc {} csid={} ssid=77 pid={} addr=4:01020304:53 payload=aa", us, csid, spid));
+                timed(s, &format!("ssu.cdec {} {}", uc, w));
+            }
+        }
+        s.mark_nontrivial();
     }
 }
 
